@@ -248,6 +248,118 @@ def target_u2g(tree):
     return f.aux + ["Definition tr_u2g (glyphOrder_ : list (str * list Z)) : list (Z * str) + (str * Z * str) :=\n  %s." % term]
 
 
+# ---------------------------------------------------------------- a LOOP inside a method: the variation-sequence loop of setupTable_cmap
+def find_method(tree, cls, name):
+    c = next((n for n in tree.body if isinstance(n, ast.ClassDef) and n.name == cls), None)
+    if c is None:
+        raise Unknown("class %s not found" % cls)
+    fn = next((n for n in c.body if isinstance(n, ast.FunctionDef) and n.name == name), None)
+    if fn is None:
+        raise Unknown("%s.%s not found" % (cls, name))
+    return fn
+
+
+def target_uvs(tree):
+    """`for hexvs, glyphMapping in uvsMapping.items(): ...` in BaseOutlineCompiler.setupTable_cmap -> tr_uvs.
+    The caller hands in the selectors and base code points as integers (`int(h, 16)` is the identity of the translation), the
+    compiled glyph set's names (`self.allGlyphs`) and the character map (`mapping`).
+    Fragment: the outer loop body is  L = []; <inner loop>; if L: D[int(k, 16)] = L ; the inner loop body is a sequence of
+      v = int(h, 16) | if g not in self.allGlyphs: continue | if a == mapping.get(b): L.append(T) else: L.append(T)
+    with T a pair (int, None | name)."""
+    fn = find_method(tree, "BaseOutlineCompiler", "setupTable_cmap")
+    loops = [n for n in ast.walk(fn) if isinstance(n, ast.For) and ast.unparse(n.iter) == "uvsMapping.items()"]
+    if len(loops) != 1:
+        raise Unknown("%d loops over uvsMapping.items()" % len(loops))
+    outer = loops[0]
+    # what the loop fills must be a fresh dict, and nothing else may write to it before it is stored
+    pre = [ast.unparse(n) for n in ast.walk(fn) if isinstance(n, ast.Assign) and ast.unparse(n.targets[0]) == "uvsDict"]
+    if pre != ["uvsDict = dict()"] and pre != ["uvsDict = {}"]:
+        raise Unknown("initialisation of uvsDict: %r" % pre)
+    if not (isinstance(outer.target, ast.Tuple) and len(outer.target.elts) == 2 and all(isinstance(e, ast.Name) for e in outer.target.elts)) or outer.orelse:
+        raise Unknown("outer loop target")
+    kvs, inner_src = (e.id for e in outer.target.elts)
+    if len(outer.body) != 3:
+        raise Unknown("outer loop body has %d statements" % len(outer.body))
+    init, inner, store = outer.body
+    if not (isinstance(init, ast.Assign) and len(init.targets) == 1 and isinstance(init.targets[0], ast.Name)
+            and isinstance(init.value, ast.List) and not init.value.elts):
+        raise Unknown("outer: " + ast.unparse(init))
+    L = init.targets[0].id
+    if not (isinstance(inner, ast.For) and ast.unparse(inner.iter) == inner_src + ".items()" and isinstance(inner.target, ast.Tuple)
+            and len(inner.target.elts) == 2 and all(isinstance(e, ast.Name) for e in inner.target.elts) and not inner.orelse):
+        raise Unknown("inner loop " + ast.unparse(inner).splitlines()[0])
+    hk, gname = (e.id for e in inner.target.elts)
+    env = {hk: ("%s_" % hk, "Z"), gname: ("%s_" % gname, "str")}          # python name -> (term, type)
+
+    def is_int16(e, name):
+        return (isinstance(e, ast.Call) and isinstance(e.func, ast.Name) and e.func.id == "int" and len(e.args) == 2 and not e.keywords
+                and isinstance(e.args[0], ast.Name) and e.args[0].id == name and isinstance(e.args[1], ast.Constant) and e.args[1].value == 16)
+
+    def expr(e):
+        if isinstance(e, ast.Name) and e.id in env:
+            return env[e.id]
+        if isinstance(e, ast.Constant) and e.value is None:
+            return ("None", "ostr")
+        if isinstance(e, ast.Call) and ast.unparse(e.func) == "mapping.get" and len(e.args) == 1 and not e.keywords:
+            t, ty = expr(e.args[0])
+            if ty != "Z":
+                raise Unknown("mapping.get of a " + ty)
+            return ("(zfind %s mapping_)" % t, "ostr")
+        raise Unknown("expression " + ast.unparse(e))
+
+    def as_ostr(e):
+        t, ty = expr(e)
+        if ty == "str":
+            return "(Some %s)" % t
+        if ty == "ostr":
+            return t
+        raise Unknown("not a name: " + ast.unparse(e))
+
+    def append(st):
+        if not (isinstance(st, ast.Expr) and isinstance(st.value, ast.Call) and ast.unparse(st.value.func) == L + ".append"
+                and len(st.value.args) == 1 and isinstance(st.value.args[0], ast.Tuple) and len(st.value.args[0].elts) == 2):
+            raise Unknown("statement " + ast.unparse(st))
+        a, b = st.value.args[0].elts
+        ta, tya = expr(a)
+        if tya != "Z":
+            raise Unknown("first component " + ast.unparse(a))
+        return "%s_ ++ [(%s, %s)]" % (L, ta, as_ostr(b))
+
+    def body(stmts):
+        if not stmts:
+            return L + "_"
+        st, rest = stmts[0], stmts[1:]
+        if isinstance(st, ast.Assign) and len(st.targets) == 1 and isinstance(st.targets[0], ast.Name) and is_int16(st.value, hk):
+            env[st.targets[0].id] = (hk + "_", "Z")
+            return body(rest)
+        if isinstance(st, ast.If) and not st.orelse and len(st.body) == 1 and isinstance(st.body[0], ast.Continue) \
+                and isinstance(st.test, ast.Compare) and len(st.test.ops) == 1 and isinstance(st.test.ops[0], ast.NotIn) \
+                and ast.unparse(st.test.comparators[0]) == "self.allGlyphs":
+            t, ty = expr(st.test.left)
+            if ty != "str":
+                raise Unknown("membership of a " + ty)
+            return "(if negb (mem %s allGlyphs_) then %s_ else %s)" % (t, L, body(rest))
+        if isinstance(st, ast.If) and len(st.body) == 1 and len(st.orelse) == 1 and isinstance(st.test, ast.Compare) \
+                and len(st.test.ops) == 1 and isinstance(st.test.ops[0], ast.Eq):
+            c = "(ostr_eqb %s %s)" % (as_ostr(st.test.left), as_ostr(st.test.comparators[0]))
+            return "let %s_ := (if %s then %s else %s) in %s" % (L, c, append(st.body[0]), append(st.orelse[0]), body(rest))
+        raise Unknown("statement " + ast.unparse(st).splitlines()[0])
+    inner_term = body(inner.body)
+    if not (isinstance(store, ast.If) and isinstance(store.test, ast.Name) and store.test.id == L and not store.orelse and len(store.body) == 1
+            and isinstance(store.body[0], ast.Assign) and len(store.body[0].targets) == 1
+            and isinstance(store.body[0].targets[0], ast.Subscript) and ast.unparse(store.body[0].targets[0].value) == "uvsDict"
+            and is_int16(store.body[0].targets[0].slice, kvs) and isinstance(store.body[0].value, ast.Name) and store.body[0].value.id == L):
+        raise Unknown("outer: " + ast.unparse(store).splitlines()[0])
+    return ["Definition tr_uvs_inner (allGlyphs_ : list str) (mapping_ : list (Z * str)) (%s_ : list (Z * option str)) (e_ : Z * str)\n"
+            "  : list (Z * option str) :=\n  let '(%s_, %s_) := e_ in %s." % (L, hk, gname, inner_term),
+            "Definition tr_uvs_outer (allGlyphs_ : list str) (mapping_ : list (Z * str)) (uvsDict_ : list (Z * list (Z * option str)))\n"
+            "  (e_ : Z * list (Z * str)) : list (Z * list (Z * option str)) :=\n"
+            "  let '(%s_, %s_) := e_ in\n  let %s_ := fold_left (tr_uvs_inner allGlyphs_ mapping_) %s_ [] in\n"
+            "  match %s_ with [] => uvsDict_ | _ => dset %s_ %s_ uvsDict_ end." % (kvs, inner_src, L, inner_src, L, kvs, L),
+            "Definition tr_uvs (allGlyphs_ : list str) (mapping_ : list (Z * str)) (uvsMapping_ : list (Z * list (Z * str)))\n"
+            "  : list (Z * list (Z * option str)) :=\n  fold_left (tr_uvs_outer allGlyphs_ mapping_) uvsMapping_ []."]
+
+
 PRELUDE = """(* GENERATED on every run by harness/imp_from_source.py from /repo's current source -- do not edit. *)
 From Coq Require Import ZArith List String.
 From U2F Require Import Base.Prelude.
@@ -266,6 +378,13 @@ Definition zmem (k : Z) (m : list (Z * str)) : bool := match zfind k m with Some
 Definition zget (k : Z) (m : list (Z * str)) : str := match zfind k m with Some v => v | None => [] end.   (* KeyError when absent *)
 Fixpoint zset (k : Z) (v : str) (m : list (Z * str)) : list (Z * str) :=
   match m with [] => [(k, v)] | (k', v') :: m' => if Z.eqb k k' then (k, v) :: m' else (k', v') :: zset k v m' end.
+(* ... with integer keys and any values (d[k] = v), and equality of optional names *)
+Fixpoint dset {V} (k : Z) (v : V) (m : list (Z * V)) : list (Z * V) :=
+  match m with [] => [(k, v)] | (k', v') :: m' => if Z.eqb k k' then (k, v) :: m' else (k', v') :: dset k v m' end.
+Definition ostr_eqb (a b : option str) : bool :=
+  match a, b with Some x, Some y => str_eqb x y | None, None => true | _, _ => false end.
+Definition imp_untranslated_uvs (what : string) (allGlyphs_ : list str) (mapping_ : list (Z * str)) (uvsMapping_ : list (Z * list (Z * str)))
+  : list (Z * list (Z * option str)). Proof. exact []. Qed.
 """
 
 
@@ -286,13 +405,21 @@ def main():
             notes.append("%s: %s" % (name, u))
             out.append(fallback % coq_string(str(u)))
         out.append("")
+    try:
+        tree2 = ast.parse(open(os.path.join(REPO, "Lib", "ufo2ft", "outlineCompiler.py")).read())
+        out += target_uvs(tree2)
+    except (Unknown, OSError, SyntaxError) as u:
+        notes.append("setupTable_cmap (variation sequences): %s" % u)
+        out.append("Definition tr_uvs (allGlyphs_ : list str) (mapping_ : list (Z * str)) (uvsMapping_ : list (Z * list (Z * str)))\n"
+                   "  : list (Z * list (Z * option str)) :=\n  imp_untranslated_uvs %s%%string allGlyphs_ mapping_ uvsMapping_." % coq_string(str(u)))
+    out.append("")
     text = "\n".join(out)
     old = open(OUT).read() if os.path.exists(OUT) else None
     if old != text:
         open(OUT, "w").write(text)
     for n in notes:
         print("UNTRANSLATED:", n)
-    print("translated makeOfficialGlyphOrder, makeUnicodeToGlyphNameMapping; %d notes" % len(notes))
+    print("translated makeOfficialGlyphOrder, makeUnicodeToGlyphNameMapping, the variation-sequence loop of setupTable_cmap; %d notes" % len(notes))
     return 0
 
 
